@@ -3,7 +3,7 @@
    Model: Model/GC.v (collect() call by call); normalize_path / marker fallback / constants are
    REGENERATED from garbage_collector.py and transaction.py (Gen/GenNorm.v) on every run. *)
 From Coq Require Import ZArith String Ascii List Bool.
-Require Import DS.Model.PyStr DS.Gen.GenNorm DS.Model.GC DS.Model.GCHist DS.Proofs.GCNormProofs DS.Proofs.GCAcceptProofs DS.Proofs.GCProofs DS.Proofs.GCLiveProofs DS.Proofs.GCHistProofs.
+Require Import DS.Model.PyStr DS.Gen.GenNorm DS.Gen.GenGCLog DS.Model.GC DS.Model.GCHist DS.Model.LogConf DS.Model.GCConf DS.Proofs.GCNormProofs DS.Proofs.GCAcceptProofs DS.Proofs.GCProofs DS.Proofs.GCLiveProofs DS.Proofs.GCHistProofs DS.Proofs.GCConfProofs.
 Import ListNotations.
 Open Scope string_scope.
 Open Scope Z_scope.
@@ -78,6 +78,66 @@ Theorem C05_acceptance_regenerated : forall (normpath : string -> string) (e : s
   append_accepts_path normpath e = true -> wf_data_ref e.
 Proof. exact accepts_under_data. Qed.
 Print Assumptions C05_acceptance_regenerated.
+
+(* --- process-wide configuration (Model/LogConf.v, Model/GCConf.v; Gen/GenGCLog.v is REGENERATED on every run and fails closed
+   when garbage_collector.py uses its logger for anything but logging statements with purely observing arguments, or reads
+   the environment) --- *)
+
+(* What a collection does to the store does not depend on the process-wide configuration: after ANY history of configuration
+   events (DataShardLogger.set_level, setLevel on the root / library / module logger, logging.disable, environment changes) from
+   ANY starting configuration, the collector's result is gc_run's -- so C05_gc_safe / C05_gc_live / C05_no_abort / C05_history
+   speak about every configuration --, the records it may emit come from the regenerated table of its logging statements at
+   enabled levels only, and it reads no environment variable. *)
+Theorem C05_conf_independent : forall (evs : list conf_ev) (c0 : logconf) (tp : string) (grace now timeout : Z) (o : oracle) (snaps : list string) (st : store),
+  fst (gc_run_conf (conf_run evs c0) tp grace now timeout o snaps st) = gc_run tp grace now timeout o snaps st
+  /\ (forall s, In s (snd (gc_run_conf (conf_run evs c0) tp grace now timeout o snaps st)) ->
+        In s GC_LOG_SITES /\ enabled (conf_run evs c0) (snd s) = true)
+  /\ gc_env_view (conf_run evs c0) = [].
+Proof. exact gc_conf_independent. Qed.
+Print Assumptions C05_conf_independent.
+
+(* C05_gc_safe, stated for the collector under every configuration history. *)
+Theorem C05_gc_safe_any_conf : forall (evs : list conf_ev) (c0 : logconf) (tp : string) (grace now timeout : Z) (snaps : list string) (st : store),
+  wf_store snaps st ->
+  forall k, In k (r_deleted (fst (gc_run_conf (conf_run evs c0) tp grace now timeout no_faults snaps st))) ->
+    ~ referenced snaps st k /\ ~ live_target now timeout st k /\ exists ob, lookup k st = Some ob /\ mtime ob < now - grace.
+Proof. exact gc_safe_any_conf. Qed.
+Print Assumptions C05_gc_safe_any_conf.
+
+(* Which configurations reach a level-guarded statement.  (1) DataShardLogger.set_level(l) from every earlier configuration in
+   which the module logger inherits: exactly the levels >= l that logging.disable does not mask.  (2) Once logging.disable(d) is
+   in force no later level change anywhere in the tree enables a level <= d: the reason a harness that silences the library
+   with logging.disable(CRITICAL) can never see a DEBUG-only behaviour, and why the oracle histories now run under drawn
+   configurations with the records written to a sink instead.  (3) The module logger's own level decides, whatever the
+   library-level events around it. *)
+Theorem C05_set_level_enables : forall (c : logconf) (l lvl : Z), l <> NOTSET -> lc_mod c = NOTSET ->
+  (enabled (conf_step c (ESetLevel l)) lvl = true <-> lc_disable c < lvl /\ l <= lvl).
+Proof. exact set_level_enables. Qed.
+Print Assumptions C05_set_level_enables.
+
+Theorem C05_disable_masks : forall (evs : list conf_ev) (c : logconf) (d lvl : Z),
+  forallb (fun e => negb (is_disable e)) evs = true -> lvl <= d ->
+  enabled (conf_run evs (conf_step c (EDisable d))) lvl = false.
+Proof. exact disable_masks. Qed.
+Print Assumptions C05_disable_masks.
+
+Theorem C05_mod_level_wins : forall (evs : list conf_ev) (c : logconf) (l lvl : Z), l <> NOTSET ->
+  forallb (fun e => match e with EModLevel _ | EDisable _ => false | _ => true end) evs = true ->
+  (enabled (conf_run evs (conf_step c (EModLevel l))) lvl = true <-> lc_disable c < lvl /\ l <= lvl).
+Proof. exact mod_level_wins. Qed.
+Print Assumptions C05_mod_level_wins.
+
+(* Non-vacuity: the default configuration enables INFO and not DEBUG; set_level(DEBUG) enables every statement of the collector,
+   among them one at DEBUG; under logging.disable(CRITICAL) nothing is emitted even after set_level(DEBUG); an application that
+   clears the library level and sets the root logger to DEBUG reaches DEBUG too. *)
+Example C05_conf_nonvacuous :
+  enabled conf_default INFO = true /\ enabled conf_default DEBUG = false
+  /\ may_emit (conf_run [ESetLevel DEBUG] conf_default) = GC_LOG_SITES
+  /\ In DEBUG (map snd GC_LOG_SITES)
+  /\ (length (may_emit conf_default) < length GC_LOG_SITES)%nat
+  /\ may_emit (conf_run [EDisable CRITICAL; ESetLevel DEBUG] conf_default) = []
+  /\ enabled (conf_run [ELibLevel NOTSET; ERootLevel DEBUG] conf_default) DEBUG = true.
+Proof. repeat split; vm_compute; try reflexivity; try (apply le_n || (repeat constructor)); tauto. Qed.
 
 (* Non-vacuity: a table located at "data" (the location that made the unrepaired normalisation delete
    every live file) with two retained snapshots sharing a manifest, an orphan data file, an orphan
